@@ -9,6 +9,9 @@ use bmv_core::subj::*;
 use bmv_core::util::{J, guard, hex_short, xor};
 
 pub fn run(ctx: &mut Ctx) {
+    if crate::ctx::focus() == "stream" {
+        return core(ctx);
+    }
     match ctx.rng.below(10) {
         0..=4 => blk(ctx),
         5..=6 => buffered(ctx),
@@ -247,8 +250,9 @@ fn core(ctx: &mut Ctx) {
     if ctx.cfg.cores.is_empty() {
         return;
     }
-    let d = ctx.rng.pick(&ctx.cfg.cores).clone();
-    let fl = d.flavor;
+    let fls: Vec<Flavor> = ctx.cfg.cores.iter().map(|d| d.flavor).collect();
+    let fl = super::common::pick_flavor(ctx, &fls);
+    let d = ctx.cfg.core(fl).unwrap().clone();
     let name = format!("{}/core", fl.name());
     ctx.subject(&name);
     let b = ctx.cfg.bs;
